@@ -563,6 +563,8 @@ fn light<K: EnrKey>(e: &Enr<K>) -> Obs {
         text: String::new(),
         hash: 0,
         typed: typed(e),
+        pubkey_uncompressed: Vec::new(),
+        into_iter_pairs: Vec::new(),
     }
 }
 
